@@ -142,6 +142,71 @@ where
         ("validation_report", v.report),
         ("find_delaunay_violations", v.finder_empty),
     ];
+    // Subset variants of the brute-force finder: "returns an empty list only under the same condition"
+    // also for a caller-supplied list of cells; keys of cells that do not exist are documented as silently
+    // skipped. Per cell: every listed live cell with an exact violation beyond the band must be reported,
+    // nothing outside the list may be reported.
+    {
+        use delaunay::core::triangulation_data_structure::CellKey;
+        let live: Vec<CellKey> = m.cells.iter().map(|c| c.key).collect();
+        let bad_cells: std::collections::BTreeSet<usize> = exact.violations.iter().map(|x| x.0).collect();
+        let null = CellKey::default();
+        let ghost: CellKey = slotmap::KeyData::from_ffi((977u64 << 32) | 0x00ff_fff1).into();
+        let mut variants: Vec<(&str, Vec<CellKey>)> = Vec::new();
+        variants.push(("all-live", live.clone()));
+        let mut k = vec![null];
+        k.extend(live.iter().copied());
+        variants.push(("missing-first", k));
+        let mut k = live.clone();
+        k.insert(k.len() / 2, ghost);
+        k.insert(1.min(k.len()), null);
+        variants.push(("missing-interleaved", k));
+        let mut k = vec![ghost];
+        k.extend(bad_cells.iter().map(|&ci| m.cells[ci].key));
+        variants.push(("missing-then-violators", k));
+        let half: Vec<CellKey> = live.iter().copied().step_by(2).collect();
+        variants.push(("every-second-cell", half));
+        for (vname, keys) in variants {
+            let r = match guard(|| find_delaunay_violations(dt.tds(), Some(&keys)).map(|l| l.iter().copied().collect::<Vec<CellKey>>()).map_err(|e| e.to_string())) {
+                Ok(r) => r,
+                Err(pi) => {
+                    out.panic(P, &pi, "find_delaunay_violations(subset)", rp(json!({"variant": vname})));
+                    continue;
+                }
+            };
+            let name = "find_delaunay_violations-subset";
+            match r {
+                Err(e) => {
+                    // not an error condition the documentation lists for a structurally valid complex
+                    out.count(&format!("subset/{}/err", vname));
+                    out.violation(P, &format!("D{}/{}/{}/error", D, name, vname), format!("{} ({}) returned Err({}) on a structurally valid triangulation (missing keys are documented as silently skipped)", name, vname, e), rp(json!({"variant": vname})));
+                }
+                Ok(list) => {
+                    out.count(&format!("subset/{}/ok", vname));
+                    let listed: std::collections::HashSet<CellKey> = keys.iter().copied().collect();
+                    let reported: std::collections::HashSet<CellKey> = list.iter().copied().collect();
+                    if let Some(x) = list.iter().find(|c| !listed.contains(c) || !m.cidx.contains_key(c)) {
+                        out.violation(P, &format!("D{}/{}/{}/reported-outside-subset", D, name, vname), format!("{} ({}) reported cell {:?}, which is not a live cell of the requested subset", name, vname, x), rp(json!({"variant": vname})));
+                    }
+                    let missed: Vec<usize> = bad_cells.iter().copied().filter(|&ci| listed.contains(&m.cells[ci].key) && !reported.contains(&m.cells[ci].key)).collect();
+                    out.add("subset/violating_cells_listed", bad_cells.iter().filter(|&&ci| listed.contains(&m.cells[ci].key)).count() as u64);
+                    if let Some(&ci) = missed.first() {
+                        let root = tri::l4_root_cause(&m, &exact.violations);
+                        let vi = exact.violations.iter().find(|x| x.0 == ci).map(|x| x.1).unwrap();
+                        out.violation(
+                            P,
+                            &format!("D{}/{}/{}/false-accept/{}", D, name, vname, root),
+                            format!("{} ({}; {} keys, {} of them not live) does not report cell {:?} although it is in the list and vertex {:?} is strictly inside its circumsphere beyond the band ({} such cells missed; source {})", name, vname, keys.len(), keys.iter().filter(|k| !m.cidx.contains_key(k)).count(), m.cells[ci].key, m.verts[vi].p, missed.len(), source),
+                            rp(json!({"variant": vname, "missed_cells": missed.len()})),
+                        );
+                    }
+                    if exact.unique_certificate && !list.is_empty() {
+                        out.violation(P, &format!("D{}/{}/{}/false-reject", D, name, vname), format!("{} ({}) reports {} cells of a triangulation whose every off-cell vertex is strictly outside every circumsphere beyond the band", name, vname, list.len()), rp(json!({"variant": vname})));
+                    }
+                }
+            }
+        }
+    }
     for (name, verdict) in entries {
         let Some(accept) = verdict else { continue };
         // 2x2 table per entry point and dimension
